@@ -29,6 +29,8 @@ THRESHOLDS = {
     "thread_count_smoother": 1e-10,                  # / ||x|| / max(1, 1e-3 Rmax/R0)
     "thread_count_direct_solver": 1e-9,              # / ||x|| / max(1, 1e-3 Rmax/R0)
     "thread_count_solution_after_k_cycles": 1e-9,
+    # recorded residual norms / ||r_0||, exact errors / first error, mean reduction factor, after a fixed number of cycles
+    "thread_count_statistics": 1e-8,
     # vector kernels vs long double: |result - ref| / (4 n eps sum|terms|)
     "kernel_dot_product": 1.0,
     "kernel_l1_norm": 1.0,
